@@ -20,7 +20,7 @@ TEXT = {
                 "(open defects as explicit Variant flags) must reproduce every verdict and tip of the real code.",
         "note": TB + "Not yet a theorem: that verifyEntry's acceptance implies the declarative per-entry authorization (the C05/C09 theorems cover "
                 "its building blocks), and that the states 'in force during the walk' are exactly the ones immediately preceding each entry. "
-                "Open findings F1, F2, F3 (and F4 via C02) are reproduced on every run from corpus/C01.",
+                "F1 (fixed in /repo, 00d1364) and F4 (fixed, 8a14108) stay in the corpus as regression witnesses; F2, F3 are open findings reproduced on every run.",
         "technique": "Lean 4 proof (loop invariant by induction on fuel, queue-partition lemma for recovery) + differential correspondence with spec evaluated on the implementation",
     },
     "C05": {
@@ -119,8 +119,8 @@ TEXT = {
                 "the log (C02_chain_sound). The whole-verification statement C02_sound_statement is evaluated as a declarative "
                 "predicate (signer counting, reachability of delegated files, dangling files, version monotonicity) on every "
                 "verification the REAL verifier accepts, in full / latest-only / from-entry mode; the model must reproduce every verdict.",
-        "note": TB + "Mergeability mode is covered under C19. F4 (in-range policy entries are not self-verified) is an open finding reproduced "
-                "from corpus/C02 on every run. State.Verify's delegation walk is modelled and correspondence-checked, its soundness "
+        "note": TB + "Mergeability mode is covered under C19. F4 (in-range policy entries were not self-verified) was found, reproduced from "
+                "corpus/C02 and FIXED in /repo (8a14108); the witness stays as a regression case. State.Verify's delegation walk is modelled and correspondence-checked, its soundness "
                 "w.r.t. the declarative selfOK predicate is not yet a theorem.",
         "technique": "Lean 4 proof (C05 soundness + counting, induction over the chain) + differential correspondence on forged chains",
     },
@@ -131,8 +131,9 @@ TEXT = {
                 "the F1 repair the exhaustive verifier only ADDS principals: acceptance implies acceptance by the delegation verifiers "
                 "alone with the same verifier name (C11_exhaustive_adds_only). Whole-history monotonicity (C11_monotone_statement) is "
                 "checked on the REAL verifier by verifying every generated history under P+G and, on a sibling repository, under P.",
-        "note": TB + "On the unchanged tree monotonicity is FALSE (open finding F1): the exhaustive verifier ends the verifier loop, so any "
-                "global rule disables the delegation rules; the model reproduces this and the violating histories are attributed to F1.",
+        "note": TB + "On the original tree monotonicity was FALSE (F1: the exhaustive verifier ended the verifier loop, so any global rule "
+                "disabled the delegation rules); the model reproduced it, the violating histories were attributed to F1, and F1 was FIXED in "
+                "/repo (00d1364) - the check now passes with the repaired variant and no KNOWN-FINDING line.",
         "technique": "Lean 4 proof (induction over the global-rule list; case analysis of the verifier loop) + differential/metamorphic correspondence",
     },
     "C09": {
@@ -142,8 +143,8 @@ TEXT = {
                 "counts principals of the rule that registered the approver's identity (C09_approvers_sound). The whole-range statement "
                 "C09_sound_statement is evaluated on every range the REAL verifier accepts over generated attestation trees with "
                 "relocated, mismatching, late, foreign-signed and dismissed approvals; the model must reproduce every verdict.",
-        "note": TB + "Open finding F7 on this tree: a code-review approval is looked up by path only, its predicate is never validated, so an "
-                "app-signed approval for another change relocated to this change's path is counted (reproduced from corpus/C09).",
+        "note": TB + "F7 (a code-review approval was looked up by path only, its predicate never validated) was found, reproduced from corpus/C09 "
+                "and FIXED in /repo (1209d45); the witness stays as a regression case.",
         "technique": "Lean 4 proof (lookup exactness, approver-merge invariants) + differential correspondence on generated attestation trees",
     },
     "C04": {
@@ -191,7 +192,7 @@ TEXT = {
                 "reach its threshold (C19_no_need_means_met). The agreement statement C19_statement is checked on the REAL code: "
                 "prediction, then the merge recorded by each candidate recorder and verified.",
         "note": TB + "Only fast-forward merges. Open findings on this tree: F27 (threshold-1 rules are reported 'not possible' without "
-                "approvals), F28 (an authorization envelope without signatures makes the prediction fail hard), F1 (global rules).",
+                "approvals), F28 (an authorization envelope without signatures makes the prediction fail hard). F1 (global rules) is fixed.",
         "technique": "Lean 4 proof (case analysis / induction over the verifier loop) + differential correspondence: predict, record, verify",
     },
     "C10": {
